@@ -536,8 +536,18 @@ def _primitive_params(run, ix):
         if c.how == "setitem" and c.acc in splat and c.key == "_1" and ("getattr(self.primitive, _1)" in c.elt or "self.primitive._data[_1]" in c.elt) \
                 and c.filters <= {(f"_1 in {c.acc}", False)}:
             fills_defaults = True
-        if c.how == "DictComp" and c.key == "_1" and "getattr(self.primitive, _1)" in c.elt and not c.filters:
-            fills_defaults = True
+        if c.how == "DictComp" and c.key == "_1" and ("getattr(self.primitive, _1)" in c.elt or "self.primitive._data[_1]" in c.elt):
+            # the comprehension is merged into the splatted dict (`kwargs.update({...})`, `{**kwargs, **{...}}`, `kwargs |= {...}`)
+            for u in ast.walk(cp.node):
+                acc_ = None
+                if isinstance(u, ast.Call) and isinstance(u.func, ast.Attribute) and u.func.attr == "update" and u.args and u.args[0] is c.node:
+                    acc_ = ast.unparse(u.func.value)
+                if isinstance(u, ast.AugAssign) and isinstance(u.op, ast.BitOr) and u.value is c.node:
+                    acc_ = ast.unparse(u.target)
+                if acc_ in splat and c.filters <= {(f"_1 in {acc_}", False)}:
+                    fills_defaults = True
+            if not c.filters and any(isinstance(k_, ast.keyword) and k_.arg is None and k_.value is c.node for k_ in ast.walk(cp.node)):
+                fills_defaults = True
     n = 0
     for sub in ix.all_subclasses(P):
         init = sub.methods.get("__init__")
